@@ -305,41 +305,45 @@ def _mentions(tree, var):
     return var in vars_in(tree)
 
 
+PINNED_SOURCES = {"db->versions->current": "ldb_version_ref", "db->mem": "ldb_memtable_ref", "db->imm": "ldb_memtable_ref"}
+
+
 def check_version_pointer_lifetime(ctx):
-    """A pointer copied from versions->current is only used while the DB
-    mutex is still held or after the version was referenced: the background
-    thread may install a new version and free the old one as soon as the
-    mutex is released."""
+    """A pointer copied from versions->current, db->mem or db->imm is only
+    used while the DB mutex is still held or after the object was referenced:
+    the background thread may install a new version / retire the memtable and
+    free the old one as soon as the mutex is released."""
     P = ctx.P
     n = 0
     for f in P.all_functions:
         if f.file != DB:
             continue
-        holders = []
+        holders = {}
         for b, i, e in f.events():
             src = e.get("rhs") if e["e"] == "asg" else (e.get("init") if e["e"] == "decl" else None)
-            if src is not None and key(src) == "db->versions->current":
+            if src is not None and key(src) in PINNED_SOURCES:
                 v = key(e["lhs"]) if e["e"] == "asg" else e["n"]
                 if v.isidentifier():
-                    holders.append(v)
-        for v in sorted(set(holders)):
+                    holders[v] = key(src)
+        for v, srck in sorted(holders.items()):
             n += 1
+            refname = PINNED_SOURCES[srck]
 
             def uses(e, v=v):
-                if e["e"] == "call" and not is_call(e, ("ldb_version_ref", "ldb_version_unref")):
+                if e["e"] == "call" and not is_call(e, ("ldb_version_ref", "ldb_version_unref", "ldb_memtable_ref", "ldb_memtable_unref")):
                     return any(_mentions(a, v) for a in e.get("a", []))
                 if e["e"] in ("mem", "deref"):
                     return _mentions(e.get("b") or e.get("x"), v)
                 return False
 
-            def step(q, e, st, b, i, v=v):
+            def step(q, e, st, b, i, v=v, srck=srck, refname=refname):
                 if q == BAD:
                     return q
                 held, ref = q
-                if e["e"] in ("asg", "decl") and key(e.get("rhs") if e["e"] == "asg" else e.get("init")) == "db->versions->current" and \
+                if e["e"] in ("asg", "decl") and key(e.get("rhs") if e["e"] == "asg" else e.get("init")) == srck and \
                         (key(e["lhs"]) if e["e"] == "asg" else e["n"]) == v:
                     return (True, False)
-                if is_call(e, "ldb_version_ref") and argkey(e, 0) == v:
+                if is_call(e, refname) and argkey(e, 0) == v:
                     return (held, True)
                 if is_call(e, "ldb_mutex_unlock") and argkey(e, 0) == "&db->mutex":
                     return (False, ref)
@@ -349,8 +353,8 @@ def check_version_pointer_lifetime(ctx):
                     return BAD
                 return q
             check_automaton(ctx, "T10-pinning", "version-pointer:%s:%s" % (f.name, v), f, (True, False), step, None,
-                            "`%s` (a copy of versions->current) is used only under the mutex or after ldb_version_ref" % v)
-    ctx.require(n >= 5, "copies of versions->current not found (%d)" % n)
+                            "`%s` (a copy of %s) is used only under the mutex or after %s" % (v, srck, refname))
+    ctx.require(n >= 8, "copies of versions->current / db->mem / db->imm not found (%d)" % n)
 
 
 def check_open_gc_order(ctx):
